@@ -42,15 +42,18 @@ Proof.
     assert (B : forall t y', cl_ctx_get (cl_ctx_put c x') t = Some y' -> exists y, cl_ctx_get c t = Some y /\ ct_sid y' = ct_sid y).
     { intros u y' H. destruct (L _ _ H) as [[-> ->]|[_ H']]; [exists x; auto | exists y'; auto]. }
     destruct (B _ _ H1) as (y & Gy & ->). destruct (B _ _ H1') as (y' & Gy' & ->). apply (s_sid_unique _ S _ _ _ _ Gy Gy').
+  - intros pb Hpb. destruct (s_pb _ S _ Hpb) as (A & y & Gy & B). split; [exact A|].
+    destruct (L2 _ _ Gy) as (y' & Gy' & A' & _). exists y'. rewrite A'. auto.
 Qed.
 
 Lemma an_ok_put c x x' : an_ok c -> cl_ctx_get c (ct_tag x') = Some x ->
   (answered x = true -> answered x' = true) -> (ct_done x' = true -> answered x' = true) ->
   (ct_fired x' = true -> answered x' = true) ->
   (cc_wl_done c = true -> In (ct_tag x') (cc_inQ c) -> ct_writing x' = true \/ answered x' = true) ->
+  ct_finished x' = ct_finished x ->
   an_ok (cl_ctx_put c x').
 Proof.
-  intros A G Ha Hd Hf Hw.
+  intros A G Ha Hd Hf Hw Hfin.
   assert (L : forall t y', cl_ctx_get (cl_ctx_put c x') t = Some y' ->
               (t = ct_tag x' /\ y' = x') \/ (t <> ct_tag x' /\ cl_ctx_get c t = Some y')).
   { intros t y' H. rewrite cl_ctx_get_put in H. destruct (t =? ct_tag x') eqn:E.
@@ -61,6 +64,7 @@ Proof.
   - intros t y' H D. destruct (L _ _ H) as [[-> ->]|[_ H']]; [auto | apply (a_done _ A _ _ H' D)].
   - intros t y' H D. destruct (L _ _ H) as [[-> ->]|[_ H']]; [auto | apply (a_fired _ A _ _ H' D)].
   - intros W t y' I H. destruct (L _ _ H) as [[-> ->]|[_ H']]; [auto | apply (a_wl _ A W _ _ I H')].
+  - intros t y' H F. destruct (L _ _ H) as [[-> ->]|[_ H']]; [rewrite Hfin in F; apply (a_fin _ A _ _ G F) | apply (a_fin _ A _ _ H' F)].
 Qed.
 
 End Put.
@@ -108,7 +112,7 @@ Proof.
     + rewrite (cev_resolved _ _ V), (cev_returned _ _ V). exact R1.
     + rewrite (cev_returned _ _ V), (cev_done _ _ V). cbn. intro R. split; [|reflexivity].
       destruct (cev_err _ _ V) as [F|(_ & F & _)]; [rewrite F; cbn; apply (R2 R) | cbn in F; congruence].
-  - apply an_ok_put with x; auto.
+  - apply an_ok_put with x; auto. unfold x2. rewrite finished_resolve. reflexivity.
 Qed.
 
 (* ----- the cancel timer ----- *)
@@ -129,7 +133,7 @@ Proof.
     + rewrite (cev_resolved _ _ V), (cev_returned _ _ V). exact R1.
     + rewrite (cev_returned _ _ V), (cev_done _ _ V). cbn. intro R. split; [|apply (R2 R)].
       destruct (cev_err _ _ V) as [F|(_ & F & _)]; [rewrite F; cbn; apply (R2 R) | cbn in F; congruence].
-  - apply an_ok_put with x; auto.
+  - apply an_ok_put with x; auto. unfold x2. rewrite finished_resolve. reflexivity.
 Qed.
 
 Lemma inv_timeout_cancel c tag : inv c -> inv (cl_timeout_cancel c tag).
@@ -227,11 +231,11 @@ Lemma inv_add c c' y : inv c -> cl_ctx_get c (ct_tag y) = None ->
   cc_reqQueued c' = cc_reqQueued c -> cc_nextID c' = cc_nextID c -> cc_wl_done c' = cc_wl_done c ->
   cc_rl_done c' = cc_rl_done c -> cc_closed c' = cc_closed c -> cc_rl_stuck c' = cc_rl_stuck c ->
   cc_wl_stuck c' = cc_wl_stuck c -> cc_outQ c' = cc_outQ c -> cc_pending c' = cc_pending c ->
-  cc_hdrErr c' = cc_hdrErr c ->
+  cc_hdrErr c' = cc_hdrErr c -> cc_lastErr c' = cc_lastErr c ->
   ct_sid y = 0 -> ct_conn y = false -> ct_lckStuck y = false -> ct_resolved y = false -> ct_returned y = false ->
-  ct_done y = false -> ct_fired y = false -> inv c'.
+  ct_done y = false -> ct_fired y = false -> ct_finished y = false -> inv c'.
 Proof.
-  intros [S A] GN L TG IQ RQ NX WD RD CL RS WS OQ PD HE Hs Hc Hl Hr Hret Hd Hf.
+  intros [S A] GN L TG IQ RQ NX WD RD CL RS WS OQ PD HE HL Hs Hc Hl Hr Hret Hd Hf Hfin.
   assert (NT : ~ In (ct_tag y) (map ct_tag (cc_ctxs c))) by (apply cl_ctxs_get_None_tags; exact GN).
   assert (OLD : forall t x, cl_ctx_get c t = Some x -> cl_ctx_get c' t = Some x).
   { intros t x G. rewrite L. destruct (t =? ct_tag y) eqn:E; [|exact G]. apply N.eqb_eq in E. subst t. congruence. }
@@ -260,7 +264,10 @@ Proof.
     + rewrite RD, CL. apply S.
     + rewrite OQ. apply S.
     + rewrite HE. apply S.
+    + rewrite HL. apply S.
     + rewrite PD, NX, RQ. apply S.
+    + rewrite PD. intros pb Hpb. destruct (s_pb _ S _ Hpb) as (A1 & x & Gx & Sx). split; [exact A1|]. exists x. split; [apply OLD, Gx | exact Sx].
+    + rewrite PD. apply S.
   - assert (HB : forall t, held c t -> held c' t).
     { intros t [H|H]; [left | right; rewrite RQ; exact H]. destruct IQ as [[Q _]|[Q _]]; rewrite Q; [exact H | apply in_app_iff; auto]. }
     constructor.
@@ -273,6 +280,10 @@ Proof.
       * destruct IQ as [[_ Q]|[_ Q]]; auto.
       * apply (a_wl _ A W t x); [|exact G']. destruct IQ as [[Q _]|[Q _]]; rewrite Q in I; [exact I|].
         apply in_app_iff in I. cbn [In] in I. destruct I as [I|[I|[]]]; [exact I | congruence].
+    + intros t x G F. destruct (NEW _ _ G) as [[_ ->]|[NE G']]; [congruence|]. destruct (a_fin _ A _ _ G' F) as [NH NP]. split.
+      * intro H. apply NH. destruct H as [H|H]; [left | right; rewrite RQ in H; exact H].
+        destruct IQ as [[Q _]|[Q _]]; rewrite Q in H; [exact H|]. apply in_app_iff in H. cbn [In] in H. destruct H as [H|[H|[]]]; [exact H | congruence].
+      * rewrite PD. exact NP.
 Qed.
 
 End Admit.
@@ -310,6 +321,7 @@ Proof.
     + rewrite cc_outQ_cl_resolve; reflexivity.
     + rewrite cc_pending_cl_resolve; reflexivity.
     + rewrite cc_hdrErr_cl_resolve; reflexivity.
+    + rewrite cc_lastErr_cl_resolve; reflexivity.
     + rewrite (cev_sid _ _ V). reflexivity.
     + rewrite (cev_conn _ _ V). reflexivity.
     + rewrite (cev_lckStuck _ _ V). reflexivity.
@@ -317,6 +329,7 @@ Proof.
     + rewrite (cev_returned _ _ V). reflexivity.
     + rewrite (cev_done _ _ V). reflexivity.
     + rewrite (cev_fired _ _ V). reflexivity.
+    + unfold y. rewrite finished_resolve. reflexivity.
   - (* case c.in <- r *)
     set (y := ctu_writing new true).
     apply (inv_add c (cl_ctx_upd (ccu_inQ c1 (cc_inQ c1 ++ [tag])) tag (fun x => ctu_writing x true)) y I); try reflexivity; try exact GN.
@@ -334,6 +347,7 @@ Proof.
     + rewrite cc_outQ_cl_ctx_upd; reflexivity.
     + rewrite cc_pending_cl_ctx_upd; reflexivity.
     + rewrite cc_hdrErr_cl_ctx_upd; reflexivity.
+    + rewrite cc_lastErr_cl_ctx_upd; reflexivity.
 Qed.
 
 End Submit.
@@ -350,11 +364,15 @@ Lemma inv_admit c c' x tag q l : inv c -> cc_inQ c = tag :: q -> cl_ctx_get c ta
   cc_reqQueued c' = cc_reqQueued c ++ [(cc_nextID c, tag)] -> cc_nextID c' = cc_nextID c + 2 ->
   cc_wl_done c' = cc_wl_done c -> cc_rl_done c' = cc_rl_done c -> cc_closed c' = cc_closed c ->
   cc_rl_stuck c' = cc_rl_stuck c -> cc_wl_stuck c' = cc_wl_stuck c -> cc_outQ c' = cc_outQ c ->
-  cc_hdrErr c' = cc_hdrErr c ->
-  cc_pending c' = cc_pending c ++ l -> (forall pb, In pb l -> pb_id pb = cc_nextID c /\ pb_tag pb = tag) ->
+  cc_hdrErr c' = cc_hdrErr c -> cc_lastErr c' = cc_lastErr c ->
+  cc_pending c' = cc_pending c ++ l -> (forall pb, In pb l -> pb_id pb = cc_nextID c /\ pb_tag pb = tag) -> (length l <= 1)%nat ->
   inv c'.
 Proof.
-  intros [St A] IQ G WD x' L TG IQ' RQ NX WD' RD CL RS WS OQ HE PD PL.
+  intros [St A] IQ G WD x' L TG IQ' RQ NX WD' RD CL RS WS OQ HE HLe PD PL LL.
+  assert (PNDl : NoDup (map pb_id (cc_pending c'))).
+  { rewrite PD, map_app. destruct l as [|p [|p2 l2]]; [rewrite app_nil_r; apply St | | cbn in LL; lia].
+    apply NoDup_snoc; [apply St|]. intro J. apply in_map_iff in J. destruct J as (pb & E & J). destruct (s_pending _ St _ J) as [Lt _].
+    destruct (PL p (or_introl eq_refl)) as [Hp _]. cbn [map] in E. rewrite Hp in E. rewrite E in Lt. clear - Lt. lia. }
   destruct (cl_ctxs_get_In _ _ _ G) as [_ Tx].
   assert (ND : ~ In tag q /\ NoDup q). { pose proof (s_inQ_nodup _ St) as H. rewrite IQ in H. inversion H. auto. }
   destruct (s_inQ _ St tag) as (x0 & G0 & Sx & Cx); [rewrite IQ; left; reflexivity|]. rewrite G in G0. inversion G0; subst x0. clear G0.
@@ -398,12 +416,20 @@ Proof.
     + rewrite RD, CL. apply St.
     + rewrite OQ. apply St.
     + rewrite HE. apply St.
+    + rewrite HLe. apply St.
     + intros pb J. rewrite PD in J. rewrite NX, RQ. apply in_app_iff in J. destruct J as [J|J].
       * destruct (s_pending _ St _ J) as [Lt U]. split; [clear - Lt; lia|]. intros t K. apply in_app_iff in K. destruct K as [K|[K|[]]]; [apply U, K|].
         inversion K as [[E1 E2]]. clear - Lt E1. lia.
       * destruct (PL _ J) as [Hi Ht]. rewrite Hi, Ht. split; [clear; lia|]. intros t K. apply in_app_iff in K. destruct K as [K|[K|[]]].
         -- destruct (s_rq _ St _ _ K) as (_ & _ & _ & _ & _ & Lt). clear - Lt. lia.
         -- inversion K. reflexivity.
+    + intros pb J. rewrite PD in J. apply in_app_iff in J. destruct J as [J|J].
+      * destruct (s_pb _ St _ J) as (A1 & y & Gy & Sy). split; [exact A1|].
+        destruct (N.eq_dec (pb_tag pb) tag) as [E|NE].
+        -- exfalso. rewrite E, G in Gy. inversion Gy; subst y. congruence.
+        -- exists y. split; [apply OLD; assumption | exact Sy].
+      * destruct (PL _ J) as [Hi Ht]. rewrite Hi, Ht. pose proof (s_next _ St) as H0. split; [clear - H0; lia|]. exists x'. split; [exact Gx' | reflexivity].
+    + exact PNDl.
   - assert (HB : forall t, t <> tag -> held c t -> held c' t).
     { intros t NE [H|H]; [left | right; rewrite RQ, map_app; apply in_app_iff; left; exact H].
       rewrite IQ' . rewrite IQ in H. destruct H as [H|H]; [congruence | exact H]. }
@@ -415,6 +441,13 @@ Proof.
     + intros t y Gy D. destruct (NEW _ _ Gy) as [[_ ->]|[_ Gy']]; [rewrite AN; apply (a_done _ A _ _ G D) | apply (a_done _ A _ _ Gy' D)].
     + intros t y Gy D. destruct (NEW _ _ Gy) as [[_ ->]|[_ Gy']]; [rewrite AN; apply (a_fired _ A _ _ G D) | apply (a_fired _ A _ _ Gy' D)].
     + rewrite WD', WD. discriminate.
+    + intros t y Gy F. destruct (NEW _ _ Gy) as [[-> ->]|[NE Gy']].
+      * exfalso. apply (proj1 (a_fin _ A _ _ G F)). left. rewrite IQ. left. reflexivity.
+      * destruct (a_fin _ A _ _ Gy' F) as [NH NP]. split.
+        -- intro H. apply NH. destruct H as [H|H].
+           ++ left. rewrite IQ. right. rewrite IQ' in H. exact H.
+           ++ right. rewrite RQ, map_app in H. apply in_app_iff in H. destruct H as [H|[H|[]]]; [exact H | cbn in H; congruence].
+        -- intros pb J. rewrite PD in J. apply in_app_iff in J. destruct J as [J|J]; [apply NP, J|]. destruct (PL _ J) as [_ Ht]. congruence.
 Qed.
 
 End WLIn.
@@ -440,7 +473,7 @@ Qed.
 Lemma effo_dequeue_resolve P c tag q e : Eok 0 e -> st_ok c -> cc_inQ c = tag :: q -> effo P c (cl_resolve (ccu_inQ c q) tag e).
 Proof.
   intros He St IQ. pose proof (eff_dequeue P c tag q St IQ) as E0. split.
-  { eapply eff_trans; [exact E0|]. apply eff_ctx_upd'. intros x0 G0. apply cev_resolve.
+  { eapply eff_trans; [exact E0|]. apply eff_ctx_upd'. intros x0 G0. split; [|apply finished_resolve]. apply cev_resolve.
     destruct (s_inQ _ St tag) as (x & G & Sx & _); [rewrite IQ; left; reflexivity|].
     destruct (e_ctx _ _ _ E0 _ _ G) as (x0' & G0' & V0). rewrite G0 in G0'. inversion G0'; subst x0'.
     rewrite (cev_sid _ _ V0), Sx. exact He. }
@@ -487,6 +520,7 @@ Record admitted c c6 (x : cctx) (tag : N) (q : list N) (l : list cpending) : Pro
   ad_wl_stuck : cc_wl_stuck c6 = cc_wl_stuck c;
   ad_outQ : cc_outQ c6 = cc_outQ c;
   ad_hdrErr : cc_hdrErr c6 = cc_hdrErr c;
+  ad_lastErr : cc_lastErr c6 = cc_lastErr c;
   ad_hdrStream : cc_hdrStream c6 = cc_hdrStream c;
   ad_hdrStatus : cc_hdrStatus c6 = cc_hdrStatus c;
   ad_hdrEndStream : cc_hdrEndStream c6 = cc_hdrEndStream c;
@@ -494,7 +528,8 @@ Record admitted c c6 (x : cctx) (tag : N) (q : list N) (l : list cpending) : Pro
   ad_closeRef : cc_closeRef c6 = cc_closeRef c;
   ad_out : cc_out c6 = cc_out c;
   ad_pending : cc_pending c6 = cc_pending c ++ l;
-  ad_l : forall pb, In pb l -> pb_id pb = cc_nextID c /\ pb_tag pb = tag
+  ad_l : forall pb, In pb l -> pb_id pb = cc_nextID c /\ pb_tag pb = tag;
+  ad_len : (length l <= 1)%nat
 }.
 
 Lemma inv_admitted c c6 x tag q l : inv c -> cc_wl_done c = false -> admitted c c6 x tag q l -> inv c6.
@@ -546,14 +581,14 @@ Proof.
   { constructor; try assumption; unfold l, c6, c5, c1, hasBody; destruct (negb (cc_encTableSize c0 =? cc_encTableSeen c0));
       destruct (match cq_body (ct_req x) with CStream _ _ => true | CBuf b => negb (cl_is_nil b) end);
       cbn [cc_ctxs cc_inQ cc_reqQueued cc_nextID cc_wl_done cc_rl_done cc_closed cc_rl_stuck cc_wl_stuck cc_outQ cc_pending
-           cc_hdrErr cc_hdrStream cc_hdrStatus cc_hdrEndStream cc_goAway cc_closeRef cc_out
+           cc_hdrErr cc_lastErr cc_hdrStream cc_hdrStatus cc_hdrEndStream cc_goAway cc_closeRef cc_out
            ccu_pending ccu_open ccu_reqQueued ccu_enc ccu_nextID ccu_encTableSeen ccu_inQ c0 cl_ctx_put ccu_ctxs];
       try reflexivity; try (rewrite U32; reflexivity); try (rewrite app_nil_r; reflexivity);
       try (intro t; unfold cl_ctx_get; cbn [cc_ctxs ccu_pending ccu_open ccu_reqQueued ccu_enc ccu_nextID ccu_encTableSeen ccu_inQ cl_ctx_put ccu_ctxs c0];
            rewrite cl_ctxs_get_put; unfold x'; cbn [ct_tag ctu_sid ctu_conn]; rewrite Tx; destruct (t =? tag) eqn:E; [apply N.eqb_eq in E; subst t; unfold cl_ctx_get in G; rewrite G|]; reflexivity);
       try (rewrite cl_ctxs_put_tags; reflexivity);
       try (intros pb [<-|[]]; destruct (cq_body (ct_req x)); split; reflexivity);
-      try (intros pb []). }
+      try (intros pb []); try (cbn [length]; clear; lia). }
   exists c6, x, l. split; [exact AD|].
   pose proof (inv_admitted c c6 x tag q l (conj St A) WD AD) as [S6 A6].
   assert (EW : Eall CEWrite) by (apply Eall_nr; [reflexivity | discriminate]).
@@ -571,10 +606,10 @@ Proof.
     + eapply effo_trans; [exact E7|]. eapply effo_trans; [exact E8 | apply effo_wl_after; [exact Pben | exact S8]].
     + eapply effo_trans; [exact E7|]. eapply effo_trans; [exact E8|].
       assert (E9 : effo P c8 (cl_resolve c8 tag CEWrite)) by (apply effo_resolve, EW).
-      eapply effo_trans; [exact E9 | apply effo_wl_exit; [exact Pben | exact EW | apply (st_ok_eff _ _ _ S8 (proj1 E9))]].
+      eapply effo_trans; [exact E9 | apply effo_wl_exit; [exact Pben | exact EW | discriminate | apply (st_ok_eff _ _ _ S8 (proj1 E9))]].
   - (* the write failed *)
     set (c7 := cl_take_req_count (cl_set_last_err c6 CEWrite) id).
-    assert (E7 : eff P c6 c7) by (eapply eff_trans; [apply eff_set_last_err | apply eff_take_req_count]).
+    assert (E7 : eff P c6 c7) by (apply (eff_trans _ _ (cl_set_last_err c6 CEWrite)); [apply eff_set_last_err; discriminate | apply eff_take_req_count]).
     pose proof (st_ok_eff _ _ _ S6 E7) as S7.
     destruct (eff_delete_pending P Pben 1 c7 id (s_nostuck _ S7)) as [E8 F8].
     pose proof (cc_inQ_cl_delete_pending _ c7 1 [] id) as I8. pose proof (cc_reqQueued_cl_delete_pending _ c7 1 [] id) as Q8.
@@ -586,7 +621,7 @@ Proof.
       + rewrite I8. unfold c7. rewrite cc_inQ_cl_take_req_count, cc_inQ_cl_set_last_err. reflexivity.
       + rewrite Q8. unfold c7. rewrite cc_reqQueued_cl_take_req_count, cc_reqQueued_cl_set_last_err. reflexivity.
       + intros t J. pose proof (cl_req_find_NoDup _ _ _ (s_rq_ids _ S6) J). pose proof (cl_req_find_NoDup _ _ _ (s_rq_ids _ S6) R6). congruence. }
-    eapply effo_trans; [exact E9 | apply effo_wl_exit; [exact Pben | exact EW | apply (st_ok_eff _ _ _ S6 (proj1 E9))]].
+    eapply effo_trans; [exact E9 | apply effo_wl_exit; [exact Pben | exact EW | discriminate | apply (st_ok_eff _ _ _ S6 (proj1 E9))]].
 Qed.
 
 End WLIn2.
@@ -625,10 +660,10 @@ Notation step := (cl_step dec_field enc_field enc_set_max cfg).
 Notation run := (cl_run dec_field enc_field enc_set_max cfg h0 first).
 
 Lemma inv_empty c : cc_ctxs c = [] -> cc_inQ c = [] -> cc_reqQueued c = [] -> cc_pending c = [] -> cc_outQ c = [] ->
-  cc_hdrErr c = None -> cc_rl_stuck c = false -> cc_wl_stuck c = false -> 0 < cc_nextID c ->
+  cc_hdrErr c = None -> cc_lastErr c <> Some CENil -> cc_rl_stuck c = false -> cc_wl_stuck c = false -> 0 < cc_nextID c ->
   (cc_wl_done c = true -> cc_closed c = true) -> (cc_rl_done c = true -> cc_closed c = true) -> inv c.
 Proof.
-  intros H1 H2 H3 H4 H5 HE H6 H7 H8 H9 H10.
+  intros H1 H2 H3 H4 H5 HE HL H6 H7 H8 H9 H10.
   assert (G : forall t, cl_ctx_get c t = None) by (intro t; unfold cl_ctx_get; rewrite H1; reflexivity).
   split; constructor; try (intros t x Gx; rewrite G in Gx; discriminate); try (intros t t' x x' Gx; rewrite G in Gx; discriminate).
   - rewrite H1. constructor.
@@ -643,7 +678,10 @@ Proof.
   - exact H10.
   - rewrite H5. constructor.
   - rewrite HE. intros e He. discriminate.
+  - exact HL.
   - rewrite H4. intros pb [].
+  - rewrite H4. intros pb [].
+  - rewrite H4. constructor.
 Qed.
 
 Lemma inv_init : inv (cl_init enc_set_max h0 first).
@@ -662,7 +700,7 @@ Proof.
   - destruct (cl_wl_live c); [|exact Hi]. apply (inv_effo (CP:=cp_any) any_item c _ Hi), effo_wl_win; [exact (fun _ _ => I) | apply Hi].
   - destruct (cl_wl_live c); [|exact Hi]. apply (inv_effo (CP:=cp_any) any_item c _ Hi), effo_wl_ping; [exact (fun _ _ => I) | apply Hi].
   - destruct (cl_wl_live c); [|exact Hi]. apply (inv_effo (CP:=cp_any) any_item c _ Hi), effo_wl_done; [exact (fun _ _ => I) | apply Hi].
-  - destruct (cl_rl_live c); [|exact Hi]. apply (inv_effo (CP:=cp_any) any_item c _ Hi), effo_rl_step; try (apply Hi); try (intros; exact I); intro; exact I.
+  - destruct (cl_rl_live c); [|exact Hi]. apply (inv_effo (CP:=cp_any) any_item c _ Hi), effo_rl_step; try (apply Hi); try (intros; exact I).
   - apply inv_timeout_fire, Hi.
   - apply (inv_timeout_cancel (CP:=cp_any)), Hi.
   - apply (inv_receive (CP:=cp_any)), Hi.
